@@ -1348,3 +1348,469 @@ Proof.
   cbn [tx_view_equiv v_id v_ts v_ref v_postings v_meta v_reverted]. rewrite P.
   repeat split; try assumption. exists (snd h). split; [reflexivity|]. rewrite M. exact R5.
 Qed.
+
+(* ---- Part F: account metadata as of a date ------------------------------------------------------------------------------------ *)
+Definition opit_equiv (x : option (option meta)) (y : option meta) : Prop :=
+  match x, y with
+  | None, None => True
+  | Some (Some m), Some m' => meta_equiv m m'
+  | _, _ => False
+  end.
+
+Local Notation hist_before pit := (fun h : option Z * Z * meta => Z.ltb (snd (fst h)) pit).
+
+Lemma B_get_account_pit_map : forall (f : bacc -> bacc) accs a pit,
+  (forall r, In r accs -> ba_addr (f r) = ba_addr r /\ ba_ins (f r) = ba_ins r /\
+     option_map snd (pick_best brev_desc (filter (hist_before pit) (ba_hist (f r)))) =
+     option_map snd (pick_best brev_desc (filter (hist_before pit) (ba_hist r)))) ->
+  B_get_account_pit (map f accs) a pit = B_get_account_pit accs a pit.
+Proof.
+  intros f accs a pit H. unfold B_get_account_pit. rewrite filter_map_comm, <- map_rev.
+  rewrite (filter_ext_in' (fun x => N.eqb (ba_addr (f x)) a && Z.leb (ba_ins (f x)) pit) (fun r => N.eqb (ba_addr r) a && Z.leb (ba_ins r) pit)).
+  2:{ intros r Hr. destruct (H r Hr) as [-> [-> _]]. reflexivity. }
+  destruct (rev (filter _ accs)) as [|r t] eqn:E; [reflexivity|]. cbn [map].
+  assert (In r accs) as Hr. { apply in_rev_hd in E. apply filter_In in E. tauto. }
+  destruct (H r Hr) as [_ [_ P]].
+  destruct (pick_best brev_desc (filter (hist_before pit) (ba_hist (f r)))) as [h|];
+    destruct (pick_best brev_desc (filter (hist_before pit) (ba_hist r))) as [h'|]; cbn in P; inversion P; reflexivity.
+Qed.
+
+Lemma B_upsert_after : forall accs x m date a pit, accs_ok accs -> pit < date ->
+  B_get_account_pit (B_upsert accs x m date) a pit = B_get_account_pit accs a pit.
+Proof.
+  intros accs x m date a pit [Hnd Hh] Hd. unfold B_upsert. set (m' := match m with Some y => y | None => [] end).
+  destruct (B_find accs x) as [old|] eqn:EF.
+  - destruct (B_find_spec _ _ _ EF) as [Hin Ha].
+    destruct (negb (meta_contains (ba_meta old) m')); [|reflexivity].
+    apply B_get_account_pit_map. intros r Hr.
+    destruct (N.eqb_spec (ba_addr r) x) as [E|E]; [|auto].
+    assert (r = old) as -> by (apply (NoDup_map_inj ba_addr accs); auto; congruence).
+    cbn [ba_addr ba_ins ba_hist filter fst snd].
+    assert (Z.ltb date pit = false) as -> by (apply Z.ltb_ge; lia). auto.
+  - unfold B_get_account_pit. cbn [filter ba_ins ba_addr].
+    assert (Z.leb date pit = false) as -> by (apply Z.leb_gt; lia). rewrite andb_false_r. reflexivity.
+Qed.
+
+Lemma B_delete_after : forall accs x k date a pit, pit < date ->
+  B_get_account_pit (B_delete accs x k date) a pit = B_get_account_pit accs a pit.
+Proof.
+  intros accs x k date a pit Hd. unfold B_delete. apply B_get_account_pit_map. intros r Hr.
+  destruct (N.eqb (ba_addr r) x); [|auto]. cbn [ba_addr ba_ins ba_hist filter fst snd].
+  assert (Z.ltb date pit = false) as -> by (apply Z.ltb_ge; lia). auto.
+Qed.
+
+Lemma accs_ok_step : forall accs e, accs_ok accs -> accs_ok (B_step accs e).
+Proof.
+  intros accs e H.
+  (* rel_acc is needed by B_step_rel only as a carrier: use the state the relation holds for *)
+  assert (exists st, rel_acc 0%N accs st) as [st R].
+  { unfold rel_acc. destruct (B_find accs 0%N) as [r|]; [exists (Some (ba_meta r)); cbn; apply meta_equiv_refl|exists None; exact I]. }
+  apply (B_step_rel accs e 0%N st H R).
+Qed.
+
+Lemma B_upserts_after : forall (am : list (N * meta)) accs date a pit, accs_ok accs -> pit < date ->
+  accs_ok (fold_left (fun accs kv => B_upsert accs (fst kv) (Some (snd kv)) date) am accs) /\
+  B_get_account_pit (fold_left (fun accs kv => B_upsert accs (fst kv) (Some (snd kv)) date) am accs) a pit =
+  B_get_account_pit accs a pit.
+Proof.
+  induction am as [|kv am IH]; intros accs date a pit Ho Hd; cbn [fold_left]; [auto|].
+  assert (O1 : accs_ok (B_upsert accs (fst kv) (Some (snd kv)) date)).
+  { assert (exists st, rel_acc 0%N accs st) as [st R].
+    { unfold rel_acc. destruct (B_find accs 0%N) as [r|]; [exists (Some (ba_meta r)); cbn; apply meta_equiv_refl|exists None; exact I]. }
+    apply (B_upsert_rel accs (fst kv) (Some (snd kv)) date 0%N st Ho R). }
+  destruct (IH _ date a pit O1 Hd) as [O2 E2]. split; [exact O2|]. rewrite E2. apply B_upsert_after; assumption.
+Qed.
+
+Lemma B_postings_after : forall ps ins am accs a pit, accs_ok accs -> pit < ins ->
+  accs_ok (fold_left (B_posting ins am) ps accs) /\
+  B_get_account_pit (fold_left (B_posting ins am) ps accs) a pit = B_get_account_pit accs a pit.
+Proof.
+  induction ps as [|p ps IH]; intros ins am accs a pit Ho Hd; cbn [fold_left]; [auto|].
+  assert (exists st, rel_acc 0%N accs st) as [st R].
+  { unfold rel_acc. destruct (B_find accs 0%N) as [r|]; [exists (Some (ba_meta r)); cbn; apply meta_equiv_refl|exists None; exact I]. }
+  destruct (B_posting_rel ins am accs p 0%N st Ho R) as [O1 _].
+  destruct (IH ins am _ a pit O1 Hd) as [O2 E2]. split; [exact O2|]. rewrite E2. unfold B_posting.
+  assert (O0 : accs_ok (B_upsert accs (p_src p) (am_get am (p_src p)) ins)) by (apply (B_upsert_rel accs _ _ ins 0%N st Ho R)).
+  rewrite B_upsert_after by assumption. apply B_upsert_after; assumption.
+Qed.
+
+Definition entry_dates_ok (e : log) : bool :=
+  match l_data e with PNew tx am => match am with [] => true | _ => Z.eqb (t_ts tx) (l_date e) end | _ => true end.
+
+Lemma B_step_after : forall accs e a pit, accs_ok accs -> pit < l_date e -> entry_dates_ok e = true ->
+  B_get_account_pit (B_step accs e) a pit = B_get_account_pit accs a pit.
+Proof.
+  intros accs e a pit Ho Hd He. unfold B_step, entry_dates_ok in *.
+  destruct (l_data e) as [tx am|tx rid|[x|id] m|[x|id] k]; try reflexivity.
+  - destruct (B_postings_after (t_postings tx) (l_date e) am accs a pit Ho Hd) as [O1 E1].
+    destruct am as [|kv am']; [exact E1|]. apply Z.eqb_eq in He.
+    destruct (B_upserts_after (kv :: am') _ (t_ts tx) a pit O1 ltac:(lia)) as [_ E2]. rewrite E2. exact E1.
+  - apply (B_postings_after (t_postings tx) (l_date e) [] accs a pit Ho Hd).
+  - apply B_upsert_after; assumption.
+  - apply B_delete_after; assumption.
+Qed.
+
+(* before the date: everything the machine holds is dated before it *)
+Definition dated_before (pit : Z) (accs : list bacc) : Prop :=
+  forall r, In r accs -> ba_ins r < pit /\ forall h, In h (ba_hist r) -> snd (fst h) < pit.
+
+Lemma dated_before_upsert : forall pit accs x m date, accs_ok accs -> date < pit -> dated_before pit accs ->
+  dated_before pit (B_upsert accs x m date).
+Proof.
+  intros pit accs x m date [Hnd Hh] Hd H. unfold B_upsert. set (m' := match m with Some y => y | None => [] end).
+  destruct (B_find accs x) as [old|] eqn:EF.
+  - destruct (B_find_spec _ _ _ EF) as [Hin Ha].
+    destruct (negb (meta_contains (ba_meta old) m')); [|exact H].
+    intros r Hr. apply in_map_iff in Hr. destruct Hr as [r0 [<- Hr0]].
+    destruct (N.eqb (ba_addr r0) x); [|apply H; assumption]. cbn [ba_ins ba_hist].
+    split; [apply (H old Hin)|]. intros h [<-|Hh0]; [cbn; exact Hd|apply (H r0 Hr0); assumption].
+  - intros r [<-|Hr]; [|apply H; assumption]. cbn. split; [exact Hd|]. intros h [<-|[]]. cbn. exact Hd.
+Qed.
+
+Lemma dated_before_delete : forall pit accs x k date, date < pit -> dated_before pit accs -> dated_before pit (B_delete accs x k date).
+Proof.
+  intros pit accs x k date Hd H r Hr. unfold B_delete in Hr. apply in_map_iff in Hr. destruct Hr as [r0 [<- Hr0]].
+  destruct (N.eqb (ba_addr r0) x); [|apply H; assumption]. cbn [ba_ins ba_hist].
+  split; [apply (H r0 Hr0)|]. intros h [<-|Hh0]; [cbn; exact Hd|apply (H r0 Hr0); assumption].
+Qed.
+
+Lemma dated_before_step : forall pit accs e, accs_ok accs -> l_date e < pit -> entry_dates_ok e = true ->
+  dated_before pit accs -> dated_before pit (B_step accs e).
+Proof.
+  intros pit accs e Ho Hd He H. unfold B_step, entry_dates_ok in *.
+  assert (Hps : forall ps am accs0, accs_ok accs0 -> dated_before pit accs0 ->
+            accs_ok (fold_left (B_posting (l_date e) am) ps accs0) /\ dated_before pit (fold_left (B_posting (l_date e) am) ps accs0)).
+  { induction ps as [|p ps IH]; intros am accs0 O D; cbn [fold_left]; [auto|].
+    assert (exists st, rel_acc 0%N accs0 st) as [st R].
+    { unfold rel_acc. destruct (B_find accs0 0%N) as [r|]; [exists (Some (ba_meta r)); cbn; apply meta_equiv_refl|exists None; exact I]. }
+    destruct (B_posting_rel (l_date e) am accs0 p 0%N st O R) as [O1 _].
+    apply IH; [exact O1|]. unfold B_posting.
+    assert (O0 : accs_ok (B_upsert accs0 (p_src p) (am_get am (p_src p)) (l_date e))) by (apply (B_upsert_rel accs0 _ _ _ 0%N st O R)).
+    apply dated_before_upsert; [exact O0|exact Hd|]. apply dated_before_upsert; assumption. }
+  destruct (l_data e) as [tx am|tx rid|[x|id] m|[x|id] k]; try exact H.
+  - destruct (Hps (t_postings tx) am accs Ho H) as [O1 D1].
+    destruct am as [|kv am']; [exact D1|]. apply Z.eqb_eq in He. rewrite He.
+    generalize dependent (fold_left (B_posting (l_date e) (kv :: am')) (t_postings tx) accs). clear -Hd.
+    induction (kv :: am') as [|kv0 am0 IH]; intros accs0 O D; cbn [fold_left]; [exact D|].
+    apply IH.
+    + assert (exists st, rel_acc 0%N accs0 st) as [st R].
+      { unfold rel_acc. destruct (B_find accs0 0%N) as [r|]; [exists (Some (ba_meta r)); cbn; apply meta_equiv_refl|exists None; exact I]. }
+      apply (B_upsert_rel accs0 _ _ _ 0%N st O R).
+    + apply dated_before_upsert; assumption.
+  - apply (Hps (t_postings tx) [] accs Ho H).
+  - apply dated_before_upsert; assumption.
+  - apply dated_before_delete; assumption.
+Qed.
+
+Lemma B_pit_of_current : forall accs a pit, accs_ok accs -> dated_before pit accs ->
+  B_get_account_pit accs a pit = option_map Some (B_get_account accs a).
+Proof.
+  intros accs a pit [Hnd Hh] D. unfold B_get_account_pit, B_get_account, B_find.
+  rewrite (filter_ext_in' (fun r => N.eqb (ba_addr r) a && Z.leb (ba_ins r) pit) (fun r => N.eqb (ba_addr r) a)).
+  2:{ intros r Hr. destruct (D r Hr) as [I _]. assert (Z.leb (ba_ins r) pit = true) as -> by (apply Z.leb_le; lia). apply andb_true_r. }
+  destruct (rev (filter (fun r => N.eqb (ba_addr r) a) accs)) as [|r t] eqn:E; [reflexivity|].
+  assert (In r accs) as Hr. { apply in_rev_hd in E. apply filter_In in E. tauto. }
+  assert (filter (hist_before pit) (ba_hist r) = ba_hist r) as ->.
+  { destruct (D r Hr) as [_ Dh]. induction (ba_hist r) as [|h t' IHt]; [reflexivity|]. cbn [filter].
+    assert (Z.ltb (snd (fst h)) pit = true) as -> by (apply Z.ltb_lt; apply Dh; left; reflexivity).
+    f_equal. apply IHt. intros h' Hh'. apply Dh. right. assumption. }
+  destruct (hist_ok_pick r (Hh r Hr)) as [h0 [P _]]. rewrite P. reflexivity.
+Qed.
+
+(* with log dates that never go back, the entries dated up to pit are a prefix *)
+Lemma mono_lower : forall Ls t, dates_monotone_from t Ls = true -> forall e, In e Ls -> t <= l_date e.
+Proof.
+  induction Ls as [|x r IH]; intros t H e He; [contradiction|]. cbn in H. apply andb_prop in H. destruct H as [H1 H2].
+  apply Z.leb_le in H1. destruct He as [<-|He]; [exact H1|]. specialize (IH _ H2 e He). lia.
+Qed.
+
+Lemma mono_split : forall Ls t pit, dates_monotone_from t Ls = true ->
+  Ls = filter (fun e => Z.leb (l_date e) pit) Ls ++ filter (fun e => negb (Z.leb (l_date e) pit)) Ls.
+Proof.
+  induction Ls as [|x r IH]; intros t pit H; [reflexivity|]. cbn in H. apply andb_prop in H. destruct H as [H1 H2].
+  cbn [filter]. destruct (Z.leb_spec (l_date x) pit) as [L|L]; cbn [negb].
+  - cbn [app]. f_equal. apply (IH _ pit H2).
+  - assert (filter (fun e => Z.leb (l_date e) pit) r = []) as ->.
+    { apply filter_none. intros e He. apply Z.leb_gt. pose proof (mono_lower r _ H2 e He). lia. }
+    cbn [app]. f_equal.
+    assert (filter (fun e => negb (Z.leb (l_date e) pit)) r = r) as ->; [|reflexivity].
+    assert (Hall : forall e, In e r -> negb (Z.leb (l_date e) pit) = true).
+    { intros e He. pose proof (mono_lower r _ H2 e He). apply negb_true_iff. apply Z.leb_gt. lia. }
+    clear -Hall. induction r as [|y r IHr]; [reflexivity|]. cbn [filter]. rewrite (Hall y (or_introl eq_refl)). f_equal.
+    apply IHr. intros e He. apply Hall. right. assumption.
+Qed.
+
+Lemma B_fold_before : forall L accs pit, accs_ok accs -> dated_before pit accs ->
+  (forall e, In e L -> l_date e < pit /\ entry_dates_ok e = true) ->
+  accs_ok (fold_left B_step L accs) /\ dated_before pit (fold_left B_step L accs).
+Proof.
+  induction L as [|e L IH]; intros accs pit Ho Hd H; cbn [fold_left]; [auto|].
+  destruct (H e (or_introl eq_refl)) as [H1 H2].
+  apply IH; [apply accs_ok_step; assumption|apply dated_before_step; assumption|].
+  intros e' He'. apply H. right. assumption.
+Qed.
+
+Lemma B_fold_after : forall L accs a pit, accs_ok accs ->
+  (forall e, In e L -> pit < l_date e /\ entry_dates_ok e = true) ->
+  B_get_account_pit (fold_left B_step L accs) a pit = B_get_account_pit accs a pit.
+Proof.
+  induction L as [|e L IH]; intros accs a pit Ho H; cbn [fold_left]; [reflexivity|].
+  destruct (H e (or_introl eq_refl)) as [H1 H2].
+  rewrite IH; [apply B_step_after; assumption|apply accs_ok_step; assumption|].
+  intros e' He'. apply H. right. assumption.
+Qed.
+
+Theorem B_get_account_pit_replay : forall Ls a pit,
+  dates_monotone Ls = true -> script_meta_same_date Ls = true -> pit_not_a_log_date Ls pit = true ->
+  opit_equiv (B_get_account_pit (B_run Ls) a pit) (replay_account_meta Ls a (Some pit)).
+Proof.
+  intros Ls a pit Hm Hs Hp.
+  set (L1 := filter (fun e => Z.leb (l_date e) pit) Ls).
+  set (L2 := filter (fun e => negb (Z.leb (l_date e) pit)) Ls).
+  assert (Esplit : Ls = L1 ++ L2).
+  { destruct Ls as [|e0 r]; [reflexivity|]. apply (mono_split (e0 :: r) (l_date e0)). cbn. rewrite Z.leb_refl. exact Hm. }
+  assert (Hok : forall e, In e Ls -> entry_dates_ok e = true /\ l_date e <> pit).
+  { intros e He. unfold script_meta_same_date, pit_not_a_log_date in *. rewrite forallb_forall in Hs, Hp.
+    split; [exact (Hs e He)|]. specialize (Hp e He). apply negb_true_iff in Hp. apply Z.eqb_neq. exact Hp. }
+  assert (H1 : forall e, In e L1 -> l_date e < pit /\ entry_dates_ok e = true).
+  { intros e He. apply filter_In in He. destruct He as [He Le]. apply Z.leb_le in Le. destruct (Hok e He). split; [lia|assumption]. }
+  assert (H2 : forall e, In e L2 -> pit < l_date e /\ entry_dates_ok e = true).
+  { intros e He. apply filter_In in He. destruct He as [He Le]. apply negb_true_iff in Le. apply Z.leb_gt in Le.
+    destruct (Hok e He). split; [lia|assumption]. }
+  assert (Ok0 : accs_ok ([] : list bacc)) by (split; [constructor|intros r []]).
+  destruct (B_fold_before L1 [] pit Ok0 ltac:(intros r []) H1) as [O1 D1].
+  unfold B_run. rewrite Esplit at 1. rewrite fold_left_app, (B_fold_after L2 _ a pit O1 H2), (B_pit_of_current _ a pit O1 D1).
+  pose proof (B_get_account_replay L1 a) as R. unfold B_run in R.
+  assert (replay_account_meta Ls a (Some pit) = replay_account_meta L1 a None) as ->.
+  { unfold replay_account_meta. cbn [before_ok]. fold L1. f_equal.
+    clear. induction L1 as [|x l IHl]; [reflexivity|]. cbn [filter]. f_equal. exact IHl. }
+  destruct (B_get_account (fold_left B_step L1 []) a) as [m|]; destruct (replay_account_meta L1 a None) as [m'|]; cbn in R |- *; auto.
+Qed.
+
+(* ---- Part G: a transaction as of a date ------------------------------------------------------------------------------------------ *)
+Local Notation rev_before pit := (fun h : Z * Z * meta => Z.leb (snd (fst h)) pit).
+
+Definition is_revert_of (id : Z) (e : log) : bool :=
+  match l_data e with PRevert _ rid => Z.eqb rid id | _ => false end.
+
+(* the oldest row with id [id] against the oracle's state as of [pit]; [lo]: a lower bound of the dates still to come;
+   [left]: the entries still to come *)
+Definition relp_tx (pit : Z) (id : Z) (lo : Z) (left : list log) (txs : list btx) (st : option rtx) : Prop :=
+  match C_find txs id, st with
+  | None, None => True
+  | Some r, Some s =>
+      bx_id r = rt_id s /\ bx_ts r = rt_instant s /\ bx_ref r = rt_ref s /\ bx_postings r = rt_postings s /\
+      (exists u, bx_updated_at r = Some u /\ (u = bx_ts r \/ u <= lo) /\
+                 (bx_ts r <= pit -> u <= pit -> meta_equiv (bx_meta r) (rt_meta s))) /\
+      (exists top, pick_best crev_desc (bx_hist r) = Some top /\ forall h, In h (bx_hist r) -> fst (fst h) <= fst (fst top)) /\
+      (bx_ts r <= pit -> exists h, pick_best crev_desc (filter (rev_before pit) (bx_hist r)) = Some h /\ meta_equiv (snd h) (rt_meta s)) /\
+      (match bx_reverted_at r with
+       | Some ra => rt_reverted s = Z.leb ra pit /\ filter (is_revert_of id) left = []
+       | None => rt_reverted s = false
+       end)
+  | _, _ => False
+  end.
+
+Lemma relp_weaken : forall pit id lo lo' left left' txs st,
+  lo <= lo' -> (filter (is_revert_of id) left = [] -> filter (is_revert_of id) left' = []) ->
+  relp_tx pit id lo left txs st -> relp_tx pit id lo' left' txs st.
+Proof.
+  intros pit id lo lo' left left' txs st Hlo Hl H. unfold relp_tx in *.
+  destruct (C_find txs id) as [r|]; destruct st as [s|]; auto.
+  destruct H as [H1 [H2 [H3 [H4 [[u [U1 [U2 U3]]] [H6 [H7 H8]]]]]]].
+  repeat split; auto.
+  - exists u. split; [exact U1|]. split; [|exact U3]. destruct U2; [left; assumption|right; lia].
+  - destruct (bx_reverted_at r); [|exact H8]. destruct H8. split; auto.
+Qed.
+
+Lemma C_insert_relp : forall pit id lo left txs tx st,
+  t_off tx = 0 -> relp_tx pit id lo left txs st ->
+  relp_tx pit id lo left (C_insert txs tx)
+          (match st with None => if Z.eqb (t_id tx) id then Some (rtx_new tx) else None | _ => st end).
+Proof.
+  intros pit id lo left txs tx st Hu Hr. unfold relp_tx in *. rewrite C_find_insert.
+  destruct (C_find txs id) as [r|]; destruct st as [s|]; try contradiction; [exact Hr|].
+  destruct (Z.eqb (t_id tx) id); [|exact I].
+  unfold C_insert. cbn [hd bx_id bx_ts bx_ref bx_postings bx_meta bx_reverted_at bx_updated_at bx_hist rtx_new rt_id rt_instant rt_ref
+                        rt_postings rt_meta rt_reverted].
+  unfold tx_instant. rewrite Hu, Z.sub_0_r.
+  split; [reflexivity|]. split; [reflexivity|]. split; [reflexivity|]. split; [reflexivity|]. split; [|split; [|split; [|reflexivity]]].
+  - exists (t_ts tx). split; [reflexivity|]. split; [left; reflexivity|]. intros _ _. apply meta_equiv_refl.
+  - exists (1, t_ts tx, t_meta tx). split; [reflexivity|]. intros h [<-|[<-|[]]]; cbn; lia.
+  - intros Hv. cbn [filter fst snd]. assert (Z.leb (t_ts tx) pit = true) as -> by (apply Z.leb_le; exact Hv).
+    exists (1, t_ts tx, t_meta tx). split; [reflexivity|apply meta_equiv_refl].
+Qed.
+
+(* one UPDATE of the row: new reverted_at / updated_at / metadata and one more revision dated by the new updated_at *)
+Lemma C_update_relp : forall pit id lo leftb left txs id' g st (fs : rtx -> rtx) lo',
+  relp_tx pit id lo leftb txs st ->
+  (forall r s u, bx_id r = id -> id' = id -> bx_updated_at r = Some u ->
+     (u = bx_ts r \/ u <= lo) ->
+     let '(ra, ua, mm) := g r in
+     rt_id (fs s) = rt_id s /\ rt_instant (fs s) = rt_instant s /\ rt_ref (fs s) = rt_ref s /\ rt_postings (fs s) = rt_postings s /\
+     (exists u', ua = Some u' /\ (u' = bx_ts r \/ u' <= lo') /\
+        (* the new revision, when it is visible at pit, carries the oracle's metadata; otherwise the oracle's is unchanged *)
+        (bx_ts r <= pit -> (u <= pit -> meta_equiv (bx_meta r) (rt_meta s)) ->
+           (u' <= pit -> meta_equiv mm (rt_meta (fs s))) /\ (pit < u' -> meta_equiv (rt_meta (fs s)) (rt_meta s)))) /\
+     (match bx_reverted_at r, ra with
+      | None, None => rt_reverted s = false -> rt_reverted (fs s) = false
+      | None, Some a => rt_reverted s = false -> filter (is_revert_of id) left = [] /\ rt_reverted (fs s) = Z.leb a pit
+      | Some b, Some a => filter (is_revert_of id) leftb = [] ->
+                          a = b /\ rt_reverted (fs s) = rt_reverted s /\ filter (is_revert_of id) left = []
+      | Some _, None => False
+      end)) ->
+  lo <= lo' -> (filter (is_revert_of id) leftb = [] -> filter (is_revert_of id) left = []) ->
+  relp_tx pit id lo' left (C_update txs id' g) (if Z.eqb id' id then option_map fs st else st).
+Proof.
+  intros pit id lo leftb left txs id' g st fs lo' Hr Hg Hlo Hleft. unfold relp_tx in *. rewrite C_update_find.
+  destruct (C_find txs id) as [r|] eqn:EF; destruct st as [s|]; try contradiction.
+  2:{ destruct (Z.eqb id' id); exact I. }
+  cbn [option_map]. pose proof (C_find_id _ _ _ EF) as Hid. rewrite Hid, (Z.eqb_sym id id').
+  destruct (Z.eqb_spec id' id) as [E|E].
+  2:{ destruct Hr as [H1 [H2 [H3 [H4 [[u [U1 [U2 U3]]] [H6 [H7 H8]]]]]]]. repeat split; auto.
+      - exists u. split; [exact U1|]. split; [|exact U3]. destruct U2; [left; assumption|right; lia].
+      - destruct (bx_reverted_at r); [|exact H8]. destruct H8. split; auto. }
+  cbn [option_map].
+  destruct Hr as [R1 [R2 [R3 [R4 [[u [U1 [U2 U3]]] [[top [T1 T2]] [R7 R8]]]]]]].
+  specialize (Hg r s u Hid E U1 U2). destruct (g r) as [[ra ua] mm].
+  destruct Hg as [G1 [G2 [G3 [G4 [[u' [Eu [Ub Gm]]] Grev]]]]]. subst ua.
+  cbn [bx_id bx_ts bx_ref bx_postings bx_meta bx_reverted_at bx_updated_at bx_hist].
+  split; [congruence|]. split; [congruence|]. split; [congruence|]. split; [congruence|].
+  assert (Hnext : C_next_rev (bx_hist r) = fst (fst top) + 1) by (unfold C_next_rev; rewrite T1; reflexivity).
+  split; [|split; [|split]].
+  - exists u'. split; [reflexivity|]. split; [exact Ub|]. intros Hv Hu'. destruct (Gm Hv (U3 Hv)) as [A _]. apply A. exact Hu'.
+  - exists (C_next_rev (bx_hist r), u', mm). split.
+    + apply pick_best_head. intros y Hy. unfold crev_desc. cbn [fst]. apply Z.ltb_lt. specialize (T2 y Hy). lia.
+    + intros h [<-|Hh]; cbn [fst]; [lia|]. specialize (T2 h Hh). lia.
+  - intros Hv. destruct (Gm Hv (U3 Hv)) as [A B]. cbn [filter fst snd].
+    destruct (Z.leb_spec u' pit) as [L|L].
+    + exists (C_next_rev (bx_hist r), u', mm). split; [|apply A; exact L].
+      apply pick_best_head. intros y Hy. apply filter_In in Hy. destruct Hy as [Hy _].
+      unfold crev_desc. cbn [fst]. apply Z.ltb_lt. specialize (T2 y Hy). lia.
+    + destruct (R7 Hv) as [h [P M]]. exists h. split; [exact P|].
+      apply (meta_equiv_trans _ (rt_meta s)); [exact M|apply meta_equiv_sym; apply B; exact L].
+  - destruct (bx_reverted_at r) as [b|]; destruct ra as [a|]; try contradiction.
+    + destruct R8 as [R8a R8b]. destruct (Grev R8b) as [-> [Gr Gl]]. split; [congruence|exact Gl].
+    + destruct (Grev R8) as [Gl Gr]. split; assumption.
+    + apply Grev. exact R8.
+Qed.
+
+Lemma C_step_relp : forall pit id lo left txs e st,
+  match log_tx e with Some tx => t_off tx = 0 | None => True end ->
+  lo <= l_date e -> (length (filter (is_revert_of id) (e :: left)) <= 1)%nat ->
+  relp_tx pit id lo (e :: left) txs st ->
+  relp_tx pit id (l_date e) left (C_step txs e) (tx_step id (Some pit) st e).
+Proof.
+  intros pit id lo left txs e st Hu Hlo Hcnt Hr.
+  assert (Hsub : filter (is_revert_of id) (e :: left) = [] -> filter (is_revert_of id) left = []).
+  { cbn [filter]. destruct (is_revert_of id e); [discriminate|auto]. }
+  unfold C_step, tx_step, log_tx in *. cbn [before_ok].
+  destruct (l_data e) as [tx am|tx rid|[x|id'] m|[x|id'] k] eqn:ED.
+  - apply (relp_weaken pit id lo (l_date e) (e :: left) left); auto. apply C_insert_relp; assumption.
+  - pose proof (C_insert_relp pit id lo (e :: left) txs tx st Hu Hr) as Hi.
+    set (st1 := match st with None => if Z.eqb (t_id tx) id then Some (rtx_new tx) else None | _ => st end) in *.
+    set (fs := fun s => if Z.leb (tx_instant tx) pit then rtx_revert s else s).
+    assert (Efs : (if Z.eqb rid id && Z.leb (tx_instant tx) pit then option_map rtx_revert st1 else st1) =
+                  (if Z.eqb rid id then option_map fs st1 else st1)).
+    { unfold fs. destruct (Z.eqb rid id), (Z.leb (tx_instant tx) pit), st1; reflexivity. }
+    rewrite Efs.
+    apply (C_update_relp pit id lo (e :: left) left _ rid _ st1 fs (l_date e) Hi); auto.
+    intros r s u Hid Erid HU HUb. cbn zeta.
+    assert (Hinst : tx_instant tx = t_ts tx) by (unfold tx_instant; rewrite Hu; lia).
+    assert (Hmeta : rt_meta (fs s) = rt_meta s) by (unfold fs; destruct (Z.leb _ pit); reflexivity).
+    split; [unfold fs; destruct (Z.leb _ pit); reflexivity|]. split; [unfold fs; destruct (Z.leb _ pit); reflexivity|].
+    split; [unfold fs; destruct (Z.leb _ pit); reflexivity|]. split; [unfold fs; destruct (Z.leb _ pit); reflexivity|].
+    split.
+    + exists u. split; [exact HU|]. split; [destruct HUb; [left; assumption|right; lia]|].
+      intros Hv Hm. rewrite Hmeta. split; [exact Hm|intros _; apply meta_equiv_refl].
+    + assert (Hleft0 : filter (is_revert_of id) left = []).
+      { cbn [filter] in Hcnt. unfold is_revert_of at 1 in Hcnt. rewrite ED, Erid, Z.eqb_refl in Hcnt. cbn [length] in Hcnt.
+        destruct (filter (is_revert_of id) left); [reflexivity|cbn in Hcnt; lia]. }
+      destruct (bx_reverted_at r) as [b|].
+      * intros C. exfalso. cbn [filter] in C. unfold is_revert_of at 1 in C. rewrite ED, Erid, Z.eqb_refl in C. discriminate.
+      * intros Hf. split; [exact Hleft0|]. unfold fs. rewrite Hinst. destruct (Z.leb (t_ts tx) pit); [reflexivity|exact Hf].
+  - exact (relp_weaken pit id lo (l_date e) (e :: left) left txs st Hlo Hsub Hr).
+  - set (fs := fun s => if Z.leb (l_date e) pit then rtx_meta (fun x => meta_merge x m) s else s).
+    assert (Efs : (if Z.eqb id' id && Z.leb (l_date e) pit then option_map (rtx_meta (fun x => meta_merge x m)) st else st) =
+                  (if Z.eqb id' id then option_map fs st else st)).
+    { unfold fs. destruct (Z.eqb id' id), (Z.leb (l_date e) pit), st; reflexivity. }
+    rewrite Efs.
+    apply (C_update_relp pit id lo (e :: left) left _ id' _ st fs (l_date e) Hr); auto.
+    intros r s u Hid Eid HU HUb. cbn zeta.
+    split; [unfold fs; destruct (Z.leb _ pit); reflexivity|]. split; [unfold fs; destruct (Z.leb _ pit); reflexivity|].
+    split; [unfold fs; destruct (Z.leb _ pit); reflexivity|]. split; [unfold fs; destruct (Z.leb _ pit); reflexivity|].
+    split.
+    + exists (l_date e). split; [reflexivity|]. split; [right; lia|].
+      intros Hv Hm. split.
+      * intros Hd. unfold fs. assert (Z.leb (l_date e) pit = true) as -> by (apply Z.leb_le; exact Hd). cbn [rtx_meta rt_meta].
+        apply merge_equiv. apply Hm. destruct HUb as [->|HUb]; lia.
+      * intros Hd. unfold fs. assert (Z.leb (l_date e) pit = false) as -> by (apply Z.leb_gt; exact Hd). apply meta_equiv_refl.
+    + destruct (bx_reverted_at r) as [b|].
+      * intros C. split; [reflexivity|]. split; [unfold fs; destruct (Z.leb _ pit); reflexivity|apply Hsub; exact C].
+      * intros Hf. unfold fs. destruct (Z.leb _ pit); exact Hf.
+  - exact (relp_weaken pit id lo (l_date e) (e :: left) left txs st Hlo Hsub Hr).
+  - set (fs := fun s => if Z.leb (l_date e) pit then rtx_meta (fun x => meta_del x k) s else s).
+    assert (Efs : (if Z.eqb id' id && Z.leb (l_date e) pit then option_map (rtx_meta (fun x => meta_del x k)) st else st) =
+                  (if Z.eqb id' id then option_map fs st else st)).
+    { unfold fs. destruct (Z.eqb id' id), (Z.leb (l_date e) pit), st; reflexivity. }
+    rewrite Efs.
+    apply (C_update_relp pit id lo (e :: left) left _ id' _ st fs (l_date e) Hr); auto.
+    intros r s u Hid Eid HU HUb. cbn zeta.
+    split; [unfold fs; destruct (Z.leb _ pit); reflexivity|]. split; [unfold fs; destruct (Z.leb _ pit); reflexivity|].
+    split; [unfold fs; destruct (Z.leb _ pit); reflexivity|]. split; [unfold fs; destruct (Z.leb _ pit); reflexivity|].
+    split.
+    + exists (l_date e). split; [reflexivity|]. split; [right; lia|].
+      intros Hv Hm. split.
+      * intros Hd. unfold fs. assert (Z.leb (l_date e) pit = true) as -> by (apply Z.leb_le; exact Hd). cbn [rtx_meta rt_meta].
+        apply del_equiv. apply Hm. destruct HUb as [->|HUb]; lia.
+      * intros Hd. unfold fs. assert (Z.leb (l_date e) pit = false) as -> by (apply Z.leb_gt; exact Hd). apply meta_equiv_refl.
+    + destruct (bx_reverted_at r) as [b|].
+      * intros C. split; [reflexivity|]. split; [unfold fs; destruct (Z.leb _ pit); reflexivity|apply Hsub; exact C].
+      * intros Hf. unfold fs. destruct (Z.leb _ pit); exact Hf.
+Qed.
+
+Lemma C_run_relp_from : forall pit id Ls lo txs st,
+  all_utc Ls = true -> dates_monotone_from lo Ls = true -> (length (filter (is_revert_of id) Ls) <= 1)%nat ->
+  relp_tx pit id lo Ls txs st ->
+  exists lo', relp_tx pit id lo' [] (fold_left C_step Ls txs) (fold_left (tx_step id (Some pit)) Ls st).
+Proof.
+  intros pit id. induction Ls as [|e Ls IH]; intros lo txs st Hu Hm Hc Hr; cbn [fold_left]; [exists lo; exact Hr|].
+  cbn [all_utc forallb] in Hu. apply andb_prop in Hu. destruct Hu as [Hu1 Hu2].
+  cbn [dates_monotone_from] in Hm. apply andb_prop in Hm. destruct Hm as [Hm1 Hm2]. apply Z.leb_le in Hm1.
+  apply (IH (l_date e)); auto.
+  - cbn [filter] in Hc. destruct (is_revert_of id e); cbn [length] in Hc; lia.
+  - apply (C_step_relp pit id lo); auto. destruct (log_tx e); [apply Z.eqb_eq; exact Hu1|exact I].
+Qed.
+
+Lemma filter_id_unique : forall txs id, NoDup (map bx_id txs) ->
+  filter (fun r => Z.eqb (bx_id r) id) txs = match C_find txs id with Some r => [r] | None => [] end.
+Proof.
+  intros txs id Hnd. unfold C_find.
+  assert (H : forall l, NoDup (map bx_id l) -> (length (filter (fun r => Z.eqb (bx_id r) id) l) <= 1)%nat).
+  { induction l as [|x l IHl]; intros N; cbn; [lia|]. inversion N as [|? ? Hn Hr]; subst.
+    destruct (Z.eqb_spec (bx_id x) id) as [E|E]; [|apply IHl; assumption]. cbn [length].
+    rewrite filter_none; [cbn; lia|]. intros y Hy. apply Z.eqb_neq. intros C. apply Hn. rewrite E, <- C. apply in_map. assumption. }
+  specialize (H txs Hnd). destruct (filter (fun r => Z.eqb (bx_id r) id) txs) as [|x [|y t]]; cbn in *; try reflexivity. lia.
+Qed.
+
+Theorem C_get_transaction_pit_replay : forall Ls id pit,
+  all_utc Ls = true -> dates_monotone Ls = true -> reverted_at_most_once Ls id = true ->
+  NoDup (map bx_id (C_run Ls)) ->
+  tx_view_equiv (C_get_transaction_pit (C_run Ls) id pit) (replay_tx Ls id (Some pit)).
+Proof.
+  intros Ls id pit Hu Hm Hc Hnd.
+  assert (Hm' : dates_monotone_from (match Ls with e :: _ => l_date e | [] => 0 end) Ls = true).
+  { destruct Ls as [|e r]; [reflexivity|]. cbn. rewrite Z.leb_refl. exact Hm. }
+  unfold reverted_at_most_once in Hc. apply Nat.leb_le in Hc.
+  destruct (C_run_relp_from pit id Ls _ [] None Hu Hm' Hc I) as [lo' R].
+  fold (C_run Ls) in R. unfold C_get_transaction_pit, replay_tx, relp_tx in *.
+  rewrite <- (filter_filter (fun r => Z.leb (bx_ts r) pit) (fun r => Z.eqb (bx_id r) id)), (filter_id_unique _ id Hnd).
+  destruct (C_find (C_run Ls) id) as [r|]; destruct (fold_left (tx_step id (Some pit)) Ls None) as [s|]; try contradiction; [|exact I].
+  destruct R as [R1 [R2 [R3 [R4 [_ [_ [R7 R8]]]]]]]. cbn [filter before_ok]. rewrite <- R2.
+  destruct (Z.leb_spec (bx_ts r) pit) as [L|L]; cbn [rev app]; [|exact I].
+  destruct (R7 L) as [h [P M]].
+  cbn [tx_view_equiv v_id v_ts v_ref v_postings v_meta v_reverted]. rewrite P.
+  split; [exact R1|]. split; [exact R2|]. split; [exact R3|]. split; [exact R4|].
+  split; [exists (snd h); split; [reflexivity|exact M]|].
+  destruct (bx_reverted_at r); [destruct R8 as [R8 _]; congruence|congruence].
+Qed.
